@@ -215,7 +215,14 @@ func c10SpecQueries(d *secDoc, genSeed, rngSeed uint64, idx int, r *Rand) []spec
 	po, _ := prepKey(R, owner)
 	id0 := d.idsOut[0]
 	short := R == 3 && d.sec.KeyBytes < 16
-	for _, pw := range []string{d.user, owner, "wrong-" + d.user, ""} {
+	pws := []string{d.user, owner, "wrong-" + d.user, ""}
+	if len(d.boundary) > 0 {
+		pws = []string{d.user, owner}
+		// differing only in / before / after the character at the 127-byte boundary
+		pws = append(pws, d.boundary[0], d.boundary[len(d.boundary)/2])
+		pws = append(pws, Pick(r, d.boundary))
+	}
+	for _, pw := range pws {
 		k, prepared := prepKey(R, pw)
 		var want string
 		if R <= 4 {
@@ -721,11 +728,19 @@ func runC10(c *Ctx) {
 		idx              int
 	}
 	var queries []specQuery
-	for i := 0; i < nDocs; i++ {
+	nBoundary := 2 // revision 6 documents with passwords around the 127-byte truncation
+	if c.Thorough {
+		nBoundary = 20
+	}
+	for k := 0; k < nDocs+nBoundary; k++ {
+		i := k
+		if k >= nDocs {
+			i = secBoundaryIdx + k
+		}
 		genSeed, rngSeed := r.U64(), r.U64()
 		gr := &Rand{s: genSeed}
 		d := genSecDoc(gr, i)
-		if d.version >= pdf.V2_0 {
+		if d.version >= pdf.V2_0 && k < nDocs {
 			if r6budget == 0 {
 				continue
 			}
